@@ -55,6 +55,12 @@ pub fn c03_consumers(cfg: &Config, s: &str) -> Vec<(&'static str, String)> {
             }
         });
     }
+    run!("parse_with_options (callbacks)", {
+        let r = parse_with_callbacks(p, s);
+        let mut out = Vec::new();
+        r.report().write("f", s, false, &mut out).expect("write to a Vec cannot fail");
+        let _ = r.output().map(|o| o.metadata.map.len());
+    });
     let m = run!("parse_metadata", p.parse_metadata(s));
     if let Some(m) = &m {
         run!("metadata report.write", {
@@ -182,6 +188,39 @@ fn after_scale(
             let _ = q.to_string();
         }
     });
+}
+
+
+/// parse with the optional callbacks installed: a recipe-reference check that
+/// rejects some names and a metadata validator that warns, errors and excludes
+pub fn parse_with_callbacks(p: &cooklang::CooklangParser, s: &str) -> RecipeResult {
+    use cooklang::analysis::{CheckOptions, CheckResult};
+    let mut n = 0usize;
+    let opts = cooklang::ParseOptions {
+        recipe_ref_check: Some(Box::new(|name: &str| {
+            if name.len() % 2 == 0 {
+                CheckResult::Error(vec!["unknown recipe".into(), "second hint".into()])
+            } else {
+                CheckResult::Warning(vec!["maybe".into()])
+            }
+        })),
+        metadata_validator: Some(Box::new(move |_k: &serde_yaml::Value, _v: &serde_yaml::Value, o: &mut CheckOptions| {
+            n += 1;
+            match n % 3 {
+                0 => {
+                    o.include(false);
+                    CheckResult::Error(vec!["excluded".into()])
+                }
+                1 => CheckResult::Warning(vec!["first".into(), "second".into(), "third".into()]),
+                2 => {
+                    o.run_std_checks(false);
+                    CheckResult::Ok
+                }
+                _ => CheckResult::Ok,
+            }
+        })),
+    };
+    p.parse_with_options(s, opts)
 }
 
 pub fn metadata_accessors(md: &cooklang::Metadata, conv: &cooklang::Converter) {
@@ -497,6 +536,10 @@ pub fn c04_check(cfg: &Config, s: &str) -> (Vec<Violation>, bool, u64) {
     c.report("parse", r.report());
     let m = cfg.parser.parse_metadata(s);
     c.report("parse_metadata", m.report());
+    if s.contains(">>") || s.contains("---") || s.contains("@@") {
+        let o = parse_with_callbacks(&cfg.parser, s);
+        c.report("parse_with_options", o.report());
+    }
 
     let case = case_json(s, cfg);
     let v = c
